@@ -207,6 +207,16 @@ func (t *Taint) Expr(fn *ir.Func, e ast.Expr) bool {
 		return t.cfg.ValueTaint && (t.Expr(fn, x.X) || t.Expr(fn, x.Y))
 	case *ast.TypeAssertExpr:
 		return t.Expr(fn, x.X)
+	case *ast.FuncLit:
+		// a closure capturing a tainted variable carries it
+		found := false
+		ast.Inspect(x.Body, func(n ast.Node) bool {
+			if id, ok := n.(*ast.Ident); ok && t.objs[fn.Info().Uses[id]] {
+				found = true
+			}
+			return !found
+		})
+		return found
 	case *ast.CompositeLit:
 		for _, el := range x.Elts {
 			if kv, ok := el.(*ast.KeyValueExpr); ok {
